@@ -36,7 +36,58 @@ CLAIMED = {
     ),
 }
 
+CLAIMED.update({
+    "C05": dict(
+        engine="Saem", category="model_checking",
+        text=("TLC checks PhaseRule, StepIndexRule, BurnInLength, PowerRefusedInv, BatchUpdate, SampledOnce and Termination of "
+              "specs/Saem.tla over every configuration with n_iter <= 12 (burn-in as count or fraction, six step powers) and "
+              "every iteration; real fits of sampled configurations on several model kinds are recorded (statistics of the "
+              "iteration, statistics used, burn-in flag) and the derived facts - memoryless or not, the step index m that "
+              "explains every component of S_k, the refusal of the constructor, the resolved burn-in length - are validated by "
+              "TLC against SaemTrace.tla."),
+        note=("The step index is recovered numerically from float32 statistics (relative tolerance 1e-5); iterations where no "
+              "statistic moved are not observable and are counted. Trusted: TLC, the recorder (instance-level wrappers)."),
+        technique="TLA+ spec + TLC exhaustive; code->spec trace validation of real fits",
+        design_ref="4/C05, 3.3"),
+    "C11": dict(
+        engine="Saem", category="model_checking",
+        text=("TLC checks LogExactlyWhenDue, LogReadOnly, AcceptedCompletes and Termination of specs/Saem.tla over every "
+              "combination of print / save / plot / patient-plot periodicities, output path, folder state and overwrite flag; "
+              "a covering sample of logging configurations is run as real fits whose per-iteration outputs, absence of mutation "
+              "of the state and of the three RNG streams by the logging step, completion and bit-identity of the fitted "
+              "parameters with the run without logging (also after RNG consumption and unrelated fits) are validated by TLC "
+              "against SaemTrace.tla."),
+        note=("Bit-identity is judged within one process on model.parameters. Trusted: TLC, recorder wrappers."),
+        technique="TLA+ spec + TLC exhaustive; code->spec trace validation; seeded re-execution",
+        design_ref="4/C11, 3.3"),
+    "C15": dict(
+        engine="VarGraph", category="model_checking",
+        text=("TLC checks RejectExactly, TopoOrder and ClosureExact of the transcribed builder (specs/VarGraph.tla) on all 2^20 "
+              "declarations over 4 nodes (unknown references and self loops included); the real VariablesDAG is run on every "
+              "declaration over 3 nodes (4 in the thorough tier), on thousands of sampled DAGs / digraphs / dirty declarations "
+              "up to 8 nodes with shuffled insertion orders, and on the graph of every shipped model kind, and TLC compares "
+              "each recorded result (exception class, order, ordered closures) with Build(par) (VarGraphTrace.tla)."),
+        note=("Exhaustive up to 4 nodes at design level and 3 (quick) / 4 (thorough) nodes at code level; larger graphs sampled. "
+              "Refusals are compared by exception class."),
+        technique="TLA+ transcription + TLC exhaustive; code->spec conformance of recorded results",
+        design_ref="4/C15"),
+    "C19": dict(
+        engine="Saem", category="model_checking",
+        text=("TLC checks TempStart, TempFloor, TempMonotone, TempOnlyAtBoundaries, TempOneAfterAnnealing, NoAnnealingIsOne, "
+              "AcceptedCompletes and Termination of specs/Saem.tla with the temperature as an exact rational over every "
+              "annealing configuration with n_iter <= 12, <= 6 plateaus and five initial temperatures; sampled configurations "
+              "are run as real fits and the temperature after every iteration (and the refusal / completion of the "
+              "configuration) is validated by TLC against SaemTrace.tla; proposal scales: Sampler.tla StdEnvelope and the "
+              "recorded adaptation of real samplers."),
+        note=("Float temperature compared with the exact rational within 8*P ulps and literally 1.0 where the specification "
+              "says 1. A single plateau is the documented degenerate scheme."),
+        technique="TLA+ spec + TLC exhaustive; code->spec trace validation of real fits",
+        design_ref="4/C19, 3.3, 3.2"),
+})
+
 ENGINES = {
+    "Saem": dict(path="specs/Saem.tla", kind="TLA+ state machine of one MCMC-SAEM run (+ SaemTrace.tla, MC_Saem*.cfg)"),
+    "VarGraph": dict(path="specs/VarGraph.tla", kind="TLA+ transcription of the dependency-graph builder (+ VarGraphTrace.tla)"),
     "StateCache": dict(path="specs/StateCache.tla", kind="TLA+ state machine of the cached variable graph (+ StateCacheTrace.tla)"),
 }
 
